@@ -17,6 +17,7 @@ import (
 	"path/filepath"
 	"strings"
 	"sync"
+	"time"
 
 	"github.com/IrineSistiana/mosproxy/app/router"
 	"github.com/IrineSistiana/mosproxy/internal/dnsmsg"
@@ -182,6 +183,29 @@ func runHandle(cs string) string {
 var handleNames = [][]byte{
 	wireLabels([]byte("com")), wireLabels([]byte("example"), []byte("com")), wireLabels([]byte("www"), []byte("example"), []byte("com")),
 	wireLabels([]byte("org")), wireLabels([]byte("a"), []byte("org")), wireLabels([]byte("xample"), []byte("com")), wireLabels([]byte("net")),
+	wireLabels([]byte("a-1"), []byte("x_y"), []byte("com")), wireLabels([]byte("n0"), []byte("t-t9"), []byte("org")),
+}
+
+// flipBit5 toggles bit 5 of one octet of a label that is not an ASCII letter (so the names differ, but not
+// by ASCII case): '1' <-> 0x11, '-' <-> 0x0d, '_' <-> 0x7f … Returns nil if the name has no such octet.
+func flipBit5(r *rand.Rand, n []byte) []byte {
+	var cand []int
+	for i := 0; i < len(n); {
+		l := int(n[i])
+		for j := i + 1; j <= i+l; j++ {
+			c := n[j] | 0x20
+			if !(c >= 'a' && c <= 'z') {
+				cand = append(cand, j)
+			}
+		}
+		i += 1 + l
+	}
+	if len(cand) == 0 {
+		return nil
+	}
+	o := append([]byte(nil), n...)
+	o[cand[r.Intn(len(cand))]] ^= 0x20
+	return o
 }
 
 func mixCase(r *rand.Rand, n []byte) []byte {
@@ -343,6 +367,12 @@ func genHandle(r *rand.Rand, thorough bool, emit func(c, cat string)) {
 					toks = append(toks, fmt.Sprintf("%sq=%s,%d,%d", p, hexs([]byte(lq)), qtype+1, qclass))
 				case 4: // echoes the original case
 					toks = append(toks, fmt.Sprintf("%sq=%s,%d,%d", p, hexs(qname), qtype, qclass))
+				case 5: // a different name that differs from the query's in bit 5 of a non-letter octet only
+					if fn := flipBit5(r, []byte(lq)); fn != nil {
+						toks = append(toks, fmt.Sprintf("%sq=%s,%d,%d", p, hexs(fn), qtype, qclass))
+					} else {
+						toks = append(toks, fmt.Sprintf("%sq=%s,%d,%d", p, hexs([]byte(lq)), qtype, qclass))
+					}
 				default:
 					toks = append(toks, fmt.Sprintf("%sq=%s,%d,%d", p, hexs([]byte(lq)), qtype, qclass))
 				}
@@ -365,6 +395,109 @@ func genHandle(r *rand.Rand, thorough bool, emit func(c, cat string)) {
 	}
 }
 
+// prefetchfw: a cache hit in the last quarter of the entry's lifetime; what does the background refresh send upstream?
+// case : ecs=<0|1> addr=<…> q=<name>,<type>,<class>        out : cached=<0|1> rcode=<n> fw=<k>:<hex>…
+func runPrefetchFw(cs string) string {
+	m := kv(cs)
+	cfg := &router.Config{}
+	cfg.ECS.Enabled = m["ecs"] == "1"
+	cfg.Upstreams = []router.UpstreamConfig{{Tag: "u0", Addr: "udp://127.0.0.1:9"}}
+	cfg.Rules = []router.RuleConfig{{Forward: "u0"}}
+	cfg.Cache.MemSize = 1 << 20
+	v, err := router.VerifRun(cfg)
+	if err != nil {
+		return "run-error"
+	}
+	defer v.Close()
+	qf := strings.Split(m["q"], ",")
+	name := unhex(qf[0])
+	lname := []byte(strings.ToLower(string(name)))
+	typ, class := uint16(atoi(qf[1])), uint16(atoi(qf[2]))
+	var log []string
+	reply := fmt.Sprintf("h=1,1,0,0,0,1,1,0,0,0 q=%s,%d,%d an=%s,1,%d,300,a,0a000001", hexs(lname), typ, class, hexs(lname), class)
+	v.SetUpstream("u0", &fakeUp{k: 0, reply: reply, log: &log})
+	remote := parseAddr(m["addr"])
+	// an entry with 2 s of its 12 s left
+	lq := dnsmsg.NewQuestion()
+	lq.Name, lq.Type, lq.Class = nameBuf(lname), dnsmsg.Type(typ), dnsmsg.Class(class)
+	stored := parseMsg(reply)
+	now := time.Now()
+	ok := v.CacheStoreAt(lq, remote.Addr(), stored, now.Add(-10*time.Second), now.Add(2*time.Second))
+	dnsmsg.ReleaseMsg(stored)
+	dnsmsg.ReleaseQuestion(lq)
+	if !ok {
+		return "store-error"
+	}
+	time.Sleep(30 * time.Millisecond) // the cache applies writes asynchronously
+	q := dnsmsg.NewMsg()
+	q.Header.ID, q.Header.RecursionDesired = 77, true
+	qq := dnsmsg.NewQuestion()
+	qq.Name, qq.Type, qq.Class = nameBuf(name), dnsmsg.Type(typ), dnsmsg.Class(class)
+	q.Questions = append(q.Questions, qq)
+	var resp *dnsmsg.Msg
+	cached := false
+	for attempt := 0; attempt < 20 && !cached; attempt++ {
+		if resp != nil {
+			dnsmsg.ReleaseMsg(resp)
+		}
+		resp, _, cached, _ = v.Handle(q, remote, netip.AddrPort{})
+		if !cached {
+			time.Sleep(10 * time.Millisecond)
+		}
+	}
+	dnsmsg.ReleaseMsg(q)
+	if resp == nil {
+		return "nil-response"
+	}
+	rcode := resp.Header.RCode
+	dnsmsg.ReleaseMsg(resp)
+	// wait for the background refresh to reach the upstream
+	var fws []string
+	for i := 0; i < 50; i++ {
+		time.Sleep(10 * time.Millisecond)
+	}
+	fws = append(fws, log...)
+	out := fmt.Sprintf("cached=%s rcode=%d", b2s(cached), rcode)
+	if !cached {
+		// the misses before the entry became visible were forwarded too; they are not refreshes
+		return out
+	}
+	if len(fws) > 0 {
+		out += " " + strings.Join(fws, " ")
+	}
+	return out
+}
+
+func genPrefetchFw(r *rand.Rand, thorough bool, emit func(c, cat string)) {
+	n := 6
+	if thorough {
+		n = 60
+	}
+	for i := 0; i < n; i++ {
+		var addr string
+		switch i % 4 {
+		case 0:
+			b := make([]byte, 4)
+			r.Read(b)
+			addr = "4:" + hexs(b)
+		case 1:
+			b := make([]byte, 16)
+			r.Read(b[12:])
+			b[10], b[11] = 255, 255
+			addr = "6:" + hexs(b)
+		case 2:
+			b := make([]byte, 16)
+			r.Read(b)
+			addr = "6:" + hexs(b)
+		default:
+			addr = "none"
+		}
+		name := mixCase(r, handleNames[r.Intn(len(handleNames))])
+		emit(fmt.Sprintf("ecs=%d addr=%s q=%s,%d,1", (i/4+1)%2, addr, hexs(name), []int{1, 28}[r.Intn(2)]), "addr"+addr[:1])
+	}
+}
+
 func init() {
 	register("handle", &component{gen: genHandle, run: runHandle, setup: handleSetup, teardown: handleTeardown})
+	register("prefetchfw", &component{gen: genPrefetchFw, run: runPrefetchFw})
 }
